@@ -1144,7 +1144,7 @@ class TensorDict(TensorDictBase):
                 if default is not NO_DEFAULT:
                     _others = [_other._get_str(key, default=None) for _other in others]
                     _others = [
-                        self.empty(recurse=True) if _other is None else _other
+                        item.empty(recurse=True) if _other is None else _other
                         for _other in _others
                     ]
                 else:
@@ -1413,7 +1413,7 @@ class TensorDict(TensorDictBase):
                 if default is not NO_DEFAULT:
                     _others = [_other._get_str(key, default=None) for _other in others]
                     _others = [
-                        self.empty(recurse=True) if _other is None else _other
+                        item.empty(recurse=True) if _other is None else _other
                         for _other in _others
                     ]
                 else:
